@@ -1,4 +1,6 @@
 """C06 — writes reach the transport complete, contiguous and in order (call-shape rules on resolved MIR)."""
+import re
+
 from mirq import callee, is_self_field, origin_calls, origin_mentions_call, strip_refs
 from props import net
 
@@ -21,7 +23,16 @@ def run(ctx, rep):
     rep.explanation = EXPLANATION
     rep.assumptions = ["write_all / write_all_buf loop until every byte is accepted (std / tokio documentation)",
                        "&mut self on Framed::write serialises writers (borrow checker)"]
+    write_rules(ctx, rep)
+    who_may_write(ctx, rep)
+    adaptors(ctx, rep)
+
+
+def write_rules(ctx, rep, only=None):
+    """R6.1 / R6.2 on Framed::write of every implementation present (only: restrict to one implementation)"""
     for impl in net.impls_present(ctx):
+        if only is not None and impl != only:
+            continue
         b = net.body(ctx, rep, "R6.1", impl, "write")
         if b is None:
             continue
@@ -79,8 +90,90 @@ def run(ctx, rep):
                       "%s Framed::write: the transport's result must be %spropagated with `?`" % (impl, "awaited and " if is_async else ""), b.loc(t["line"]))
         enc_sites = b.calls_to(r"Codec::encode$")
         rep.check("R6.2", "%s:one-encode" % impl, len(enc_sites) == 1, "exactly one Codec::encode per write (found %d)" % len(enc_sites), b.loc(), nontrivial=False)
-    rep.floor("R6.1", 2 * len(net.impls_present(ctx)))
-    adaptors(ctx, rep)
+    rep.floor("R6.1", 2 * (1 if only else len(net.impls_present(ctx))))
+
+
+WRITEISH = r"(std::io::Write|tokio::io::async_write::AsyncWrite|async_write_ext::AsyncWriteExt|futures_sink::Sink|futures_util::sink::SinkExt)::"
+
+
+def _norm_ty(t):
+    """type text without lifetimes and the parentheses rustc prints around `dyn Trait + 'static`"""
+    t = re.sub(r"\s*\+\s*'\w+", "", t or "")
+    t = re.sub(r"'\w+\s*,?\s*", "", t)
+    return t.replace("(", "").replace(")", "").replace(" ", "")
+
+
+def _only_called_from(ctx, helper, method):
+    import panics
+    g = helper
+    for _ in range(3):
+        g = panics.sole_caller(ctx.mir, g)
+        if g is None:
+            return False
+        if g.split("::{closure")[0] == method:
+            return True
+    return False
+
+
+def who_may_write(ctx, rep):
+    """R6.4 who-may-write: in every method of Framed other than write (read, read_buf, handshake ... with their private helpers
+    inlined) no write-family call is made on self.inner: bytes reach the transport through Framed::write only, so a frame
+    cannot be interleaved with bytes another method pushes at the transport (a reply queue, a second writer)."""
+    for impl in net.impls_present(ctx):
+        prefix = net.IMPLS[impl]["framed"] + "::"
+        seen = 0
+        names = set()
+        for n in ctx.mir.bodies:
+            if not n.startswith(prefix):
+                continue
+            meth = n[len(prefix):].split("::")[0].split("#")[0]
+            names.add(meth)
+        for meth in sorted(names):
+            if meth == "write" or _only_called_from(ctx, prefix + meth, prefix + "write"):
+                continue          # write and the private helpers only it calls are the sanctioned path (R6.1-R6.2 analyse them inlined)
+            cands = [prefix + meth, prefix + meth + "::{closure#0}#promoted"]
+            b = None
+            for c in cands[::-1]:
+                if c in ctx.mir.bodies:
+                    b = ctx.mir.body(c)
+                    break
+            if b is None:
+                continue
+            from mirq import inline_calls, inline_async
+            want = lambda d: d.startswith(prefix) and not d.endswith(net.ANCHOR_METHODS) and "{closure" not in d
+            ib = inline_async(b, lambda d: d.startswith(prefix) and not d.endswith(net.ANCHOR_METHODS), depth=3)
+            ib = inline_calls(ib, want)
+            seen += 1
+            bad = []
+            for bb, t in ib.calls():
+                d = callee(t)[0] or ""
+                if not t["args"] or not re.search(WRITEISH, d):
+                    continue
+                if is_self_field(ib.origin(t["args"][0]), "inner"):
+                    bad.append(d.split("::")[-1])
+            # closures and async blocks nested in the method (a timeout wrapper, a retry closure): the transport is recognised by
+            # its type there (the declared type of Framed.inner)
+            inner_ty = next((f["ty"] for f in ctx.mir.structs.get(net.IMPLS[impl]["framed"], {"fields": []})["fields"] if f["name"] == "inner"), None)
+            owners = [meth] + [h[len(prefix):].split("::")[0] for h in ctx.mir.bodies if h.startswith(prefix) and want(h) and _only_called_from(ctx, h, prefix + meth)]
+            for n2 in sorted(ctx.mir.bodies):
+                if not n2.startswith(prefix) or "{closure" not in n2 or n2[len(prefix):].split("::")[0] not in owners:
+                    continue
+                if n2 in cands or (n2.endswith("#promoted") and n2[:-9] in cands) or (n2 + "#promoted") in cands:
+                    continue
+                if n2.endswith("#promoted") is False and (n2 + "#promoted") in ctx.mir.bodies:
+                    continue
+                nb = ctx.mir.body(n2)
+                if nb is None or inner_ty is None:
+                    continue
+                for bb, t in nb.calls():
+                    d, _rd, ga, _f = callee(t)
+                    if d and re.search(WRITEISH, d) and ga and _norm_ty(str(ga[0])) == _norm_ty(inner_ty):
+                        bad.append("%s in %s" % (d.split("::")[-1], n2[len(prefix):]))
+            rep.check("R6.4", "%s:%s:no-transport-write" % (impl, meth), not bad,
+                      "%s Framed::%s writes to the transport itself (%s): only Framed::write may, or its frames can be interleaved with these bytes" % (impl, meth, sorted(set(bad))),
+                      ib.loc(), sample={"impl": impl, "method": meth})
+        rep.check("R6.4", "%s:methods" % impl, seen >= 3, "expected at least read, read_buf and handshake among the methods of %s Framed (found %d)" % (impl, seen), None, nontrivial=False)
+    rep.floor("R6.4", 4 * len(net.impls_present(ctx)))
 
 
 ADAPTORS = [
